@@ -522,4 +522,41 @@ theorem decode_layout (k L S : Nat) (es ds : Bool) (D : List Nat) (hk : 0 < k) (
   have : (decLargeLoop k L ds D.length 0 D.length).2.2 = D.length - nLargeRows k L es D.length * (k * L) := by omega
   rw [this, List.take_of_length_le (l := D.drop _) (by simp), List.take_append_drop]
 
+
+/-! ### rebuilding lost shards, column by column -/
+
+theorem optColumn_erase (shards : List (List Nat)) (mask : List Bool) (p : Nat) :
+    optColumn (eraseShards shards mask) p
+      = ((columnAt shards p).zip mask).map fun xb => if xb.2 then some xb.1 else none := by
+  unfold optColumn eraseShards columnAt
+  rw [List.zip_map_left, List.map_map, List.map_map]
+  apply List.map_congr_left
+  intro sb _
+  obtain ⟨s1, b⟩ := sb
+  cases b <;> simp
+
+theorem reconChunk_codewords (cd : Codec) (k m : Nat) (hmds : MDS cd k m)
+    (shards : List (List Nat)) (mask : List Bool)
+    (hmask : mask.length = k + m) (hlost : (mask.filter (· == false)).length ≤ m) :
+    ∀ cnt start, (∀ p, start ≤ p → p < start + cnt → IsCodewordAt cd k m shards p) →
+      reconChunk cd (eraseShards shards mask) start cnt
+        = some ((List.range cnt).map fun t => columnAt shards (start + t)) := by
+  intro cnt
+  induction cnt with
+  | zero => intro start _; simp [reconChunk]
+  | succ c ih =>
+    intro start hcw
+    obtain ⟨data, hd, hp, hcol⟩ := hcw start (Nat.le_refl _) (by omega)
+    have hrec := hmds data mask hd hp hmask hlost
+    have hrest := ih (start + 1) (fun p h1 h2 => hcw p (by omega) (by omega))
+    unfold reconChunk
+    rw [optColumn_erase, hcol, hrec, hrest]
+    simp only [Option.some.injEq]
+    rw [List.range_succ_eq_map, List.map_cons, List.map_map, ← hcol]
+    simp only [Nat.add_zero, List.cons.injEq, true_and]
+    apply List.map_congr_left
+    intro t _
+    simp only [Function.comp]
+    congr 1; omega
+
 end SwV.Lemmas.C06
